@@ -29,18 +29,6 @@ MethName(c, k) == "m" \o ToString(c) \o "x" \o ToString(k)
 
 Names(F(_, _), c, cnt) == [k \in 1..cnt |-> F(c, k)]
 
-\* the hierarchy: dag (sets of bases), order of writing the bases, flags and member counts per class
-Hier(dag, revBases, kinds, abs, np, ni, nm, wmt) ==
-    LET n == Len(dag) IN
-    [n |-> n,
-     kind |-> kinds,
-     bases |-> [c \in 1..n |-> IF revBases THEN Rev(Asc(dag[c])) ELSE Asc(dag[c])],
-     abstract |-> abs,
-     props |-> [c \in 1..n |-> IF kinds[c] = "class" THEN Names(PropName, c, np[c]) ELSE <<>>],
-     invs |-> [c \in 1..n |-> Names(InvName, c, ni[c])],
-     methods |-> [c \in 1..n |-> IF kinds[c] = "class" THEN Names(MethName, c, nm[c]) ELSE <<>>],
-     wmt |-> wmt]
-
 \* the written constructor of class c.  style:
 \*   "super_first"  super-constructor calls in the order of the bases, then the own assignments
 \*   "own_first"    own assignments first
@@ -57,11 +45,24 @@ CtorOf(h, c, style) ==
         ELSE IF style = "own_twice" THEN supers \o own \o own
         ELSE supers \o own
 
-Case(h0, rank, style, part) ==
-    [h |-> [n |-> h0.n, kind |-> h0.kind, bases |-> h0.bases, abstract |-> h0.abstract, props |-> h0.props,
-            invs |-> h0.invs, methods |-> h0.methods, wmt |-> h0.wmt,
-            ctor |-> [c \in 1..h0.n |-> CtorOf(h0, c, style)]],
-     rank |-> rank, style |-> style, part |-> part]
+\* the hierarchy: dag (sets of bases), order of writing the bases, flags and member counts per class,
+\* style of the written constructors
+Hier(dag, revBases, kinds, abs, np, ni, nm, wmt, style) ==
+    LET n == Len(dag)
+        bases == [c \in 1..n |-> IF revBases THEN Rev(Asc(dag[c])) ELSE Asc(dag[c])]
+        props == [c \in 1..n |-> IF kinds[c] = "class" THEN Names(PropName, c, np[c]) ELSE <<>>]
+        h0 == [n |-> n, kind |-> kinds, bases |-> bases, props |-> props]   \* what CtorOf looks at
+    IN  [n |-> n,
+         kind |-> kinds,
+         bases |-> bases,
+         abstract |-> abs,
+         props |-> props,
+         invs |-> [c \in 1..n |-> Names(InvName, c, ni[c])],
+         methods |-> [c \in 1..n |-> IF kinds[c] = "class" THEN Names(MethName, c, nm[c]) ELSE <<>>],
+         wmt |-> wmt,
+         ctor |-> [c \in 1..n |-> CtorOf(h0, c, style)]]
+
+Case(h, rank, style, part) == [h |-> h, rank |-> rank, style |-> style, part |-> part]
 
 AllClass(n) == [c \in 1..n |-> "class"]
 AllCprim(n) == [c \in 1..n |-> "cprim"]
@@ -75,13 +76,13 @@ AbsButLast(n) == [c \in 1..n |-> c < n]
 \* dimensions of the larger slices are thinned out; n <= 3 is always complete.
 \* A: every DAG x every assignment of abstract flags
 PartA(n, full) ==
-    {Case(Hier(d, TRUE, AllClass(n), abs, Mod3(n), Const(n, 1), Const(n, 0), Const(n, "none")),
+    {Case(Hier(d, TRUE, AllClass(n), abs, Mod3(n), Const(n, 1), Const(n, 0), Const(n, "none"), "super_first"),
           Identity(n), "super_first", "A")
      : d \in Dags(n), abs \in [1..n -> BOOLEAN]}
 \* B: every DAG x every assignment of names (the sort draws its roots from a name-sorted set)
 Rot(n, k) == [c \in 1..n |-> ((c + k - 1) % n) + 1]
 PartB(n, full) ==
-    {Case(Hier(d, TRUE, AllClass(n), AbsButLast(n), Const(n, 1), Alt(n), Const(n, 0), Const(n, "none")),
+    {Case(Hier(d, TRUE, AllClass(n), AbsButLast(n), Const(n, 1), Alt(n), Const(n, 0), Const(n, "none"), "super_first"),
           r, "super_first", "B")
      : d \in Dags(n),
        r \in IF full \/ n <= 3 THEN Perms(n) ELSE {Identity(n), Rev(Identity(n)), Rot(n, 1), Rev(Rot(n, 2))}}
@@ -91,7 +92,7 @@ WmtChoices(n, full) ==
     ELSE IF full THEN [1..n -> {"none", "true"}]
     ELSE {Const(n, "true")} \cup {[c \in 1..n |-> IF c = k THEN "true" ELSE "none"] : k \in 1..n}
 PartC(n, full) ==
-    {Case(Hier(d, TRUE, AllClass(n), AbsButLast(n), Const(n, 1), Const(n, 0), Const(n, 0), w),
+    {Case(Hier(d, TRUE, AllClass(n), AbsButLast(n), Const(n, 1), Const(n, 0), Const(n, 0), w, "super_first"),
           Identity(n), "super_first", "C")
      : d \in Dags(n), w \in WmtChoices(n, full)}
 \* D: every DAG x member profiles x order of the bases x constructor style
@@ -106,12 +107,12 @@ Writings(n, full) ==
     THEN {[rv |-> rv, st |-> st] : rv \in BOOLEAN, st \in {"super_first", "own_first", "super_rev"}}
     ELSE {[rv |-> FALSE, st |-> "super_first"], [rv |-> TRUE, st |-> "own_first"], [rv |-> TRUE, st |-> "super_rev"]}
 PartD(n, full) ==
-    {Case(Hier(d, w.rv, AllClass(n), AbsButLast(n), m.np, m.ni, m.nm, Const(n, "none")),
+    {Case(Hier(d, w.rv, AllClass(n), AbsButLast(n), m.np, m.ni, m.nm, Const(n, "none"), w.st),
           Identity(n), w.st, "D")
      : d \in Dags(n), m \in MemberProfiles(n), w \in Writings(n, full)}
 \* E: hierarchies of constrained primitives (roots constrain str)
 PartE(n, full) ==
-    {Case(Hier(d, v.rv, AllCprim(n), Const(n, FALSE), Const(n, 0), v.ni, Const(n, 0), Const(n, "none")),
+    {Case(Hier(d, v.rv, AllCprim(n), Const(n, FALSE), Const(n, 0), v.ni, Const(n, 0), Const(n, "none"), "super_first"),
           v.r, "super_first", "E")
      : d \in Dags(n),
        v \in IF full \/ n <= 3
@@ -121,29 +122,34 @@ PartE(n, full) ==
 \* F: classes and constrained primitives side by side (the first k members are constrained primitives)
 PartF(n, full) ==
     UNION {{Case(Hier(d, TRUE, [c \in 1..n |-> IF c <= k THEN "cprim" ELSE "class"],
-                      [c \in 1..n |-> c > k /\ c < n], Const(n, 1), Const(n, 1), Const(n, 0), Const(n, "none")),
+                      [c \in 1..n |-> c > k /\ c < n], Const(n, 1), Const(n, 1), Const(n, 0), Const(n, "none"), "super_first"),
                  r, "super_first", "F")
             : r \in {Identity(n), Rev(Identity(n))},
               d \in {dd \in Dags(n) : \A c \in 1..n : \A b \in dd[c] : (b <= k) <=> (c <= k)}}
            : k \in 1..(n - 1)}
 \* H: the written constructor assigns its own properties twice
 PartH(n, full) ==
-    {Case(Hier(d, TRUE, AllClass(n), AbsButLast(n), Const(n, 1), Const(n, 0), Const(n, 0), Const(n, "none")),
+    {Case(Hier(d, TRUE, AllClass(n), AbsButLast(n), Const(n, 1), Const(n, 0), Const(n, 0), Const(n, "none"), "own_twice"),
           Identity(n), "own_twice", "H")
      : d \in Dags(n)}
 
 AllParts(n, full) ==
     PartA(n, full) \cup PartB(n, full) \cup PartC(n, full) \cup PartD(n, full) \cup PartE(n, full)
     \cup PartF(n, full) \cup PartH(n, full)
-\* a fifth class (thorough tier): flags, a handful of name assignments, two member profiles, cprims
-Part5 ==
-    PartA(5, FALSE)
-    \cup {cs \in PartB(5, FALSE) : TRUE}
-    \cup {cs \in PartD(5, FALSE) : cs.h.props[1] # <<>> /\ cs.h.methods[5] = <<>>}
-    \cup PartE(5, FALSE)
+\* a fifth class (thorough tier): every DAG on five classes x a few flag assignments, name assignments,
+\* member profiles and constrained primitives.  (An operator with a parameter, so that TLC does not evaluate it
+\* eagerly as a constant where it is not used.)
+Part5(full) ==
+    LET n == 5 IN
+    {Case(Hier(d, TRUE, AllClass(n), abs, Mod3(n), Const(n, 1), Const(n, 0), Const(n, "none"), "super_first"),
+          Identity(n), "super_first", "A")
+     : d \in Dags(n), abs \in {Const(n, FALSE), AbsButLast(n), [c \in 1..n |-> c % 2 = 1], [c \in 1..n |-> c % 2 = 0]}}
+    \cup PartB(n, full)
+    \cup {cs \in PartD(n, full) : cs.h.props[1] # <<>> /\ cs.h.methods[n] = <<>>}
+    \cup PartE(n, full)
 
 \* every digraph (cycles, self loops, bases declared later): only the sort is meaningful on these
-PartG(n, allNames) == {Case(Hier(d, FALSE, AllClass(n), Const(n, FALSE), Const(n, 0), Const(n, 0), Const(n, 0), Const(n, "none")),
+PartG(n, allNames) == {Case(Hier(d, FALSE, AllClass(n), Const(n, FALSE), Const(n, 0), Const(n, 0), Const(n, 0), Const(n, "none"), "super_first"),
                   r, "super_first", "G")
              : d \in Digraphs(n, n), r \in IF allNames THEN Perms(n) ELSE {Identity(n), Rev(Identity(n))}}
 
